@@ -121,24 +121,3 @@ Proof.
   destruct C11_example_hypotheses as [_ [_ [H1 [H2 [H3 H4]]]]].
   apply (C11_small_net (fun _ => 0) (fun _ => Rle_refl 0) [1%N] ex_ops 1 [3%N]); try assumption. lra.
 Qed.
-
-(* ---- the side condition of C11_sybil_seventh_partial cannot simply be dropped.
-   5000 known nodes: anchor 1, identity 2 rating itself, 4998 honest nodes that make no statement
-   (known only because the anchor once reported a failed interaction with them: a 0.0 entry);
-   nobody has statistics.  The SAME generic definition, executed over IEEE binary64: the loop
-   leaves through the convergence test after 2 rounds and identity 2 keeps 0.36/5000 > 1/(7*5000).
-   This is an execution of the binary64 instance of the configuration used in
-   C11_sybil_seventh_refuted (and the harness reproduces it on the real engine in the thorough tier). *)
-From Coq Require Import PrimFloat.
-Fixpoint Nseq (start : N) (len : nat) : list N :=
-  match len with O => [] | S k => start :: Nseq (start + 1) k end.
-
-Example C11_side_condition_needed_binary64 :
-  let ln0 : N -> T FloatF := fun _ => 0%float in
-  let ops : list (op FloatF) := UpdLocal 2 2 true :: map (fun h => UpdLocal 1 h false) (Nseq 3 4998) in
-  let st := fst (@run FloatF ln0 (@init FloatF [1%N]) ops) in
-  let m := @global_trust FloatF ln0 st 1%float in
-  ((N.of_nat (length (@node_set FloatF st)) =? 5000)%N && (@rounds_run FloatF st =? 2)%N &&
-   closed_set st [2%N] && equal_factors [(0%N, 0%float)] st &&
-   PrimFloat.ltb (PrimFloat.div 1 (PrimFloat.mul 7 5000)) (@mass FloatF m [2%N])) = true.
-Proof. vm_compute. reflexivity. Qed.
